@@ -462,7 +462,28 @@ def tables_del_ins(window):
                           'task_timeout_timers'):
                     ins.setdefault(t, set()).add(bi)
                     dele.setdefault(t, set()).add(bi)
-    for t in set(ins) & set(dele):
-        if len(ins[t] | dele[t]) > 1:
+            elif k in ('state', 'outputs', 'job', 'jobupd', 'param', 'flow',
+                       'xtrig', 'abs'):
+                tbl = {'state': 'task_states', 'outputs': 'task_outputs',
+                       'job': 'task_jobs', 'jobupd': 'task_jobs',
+                       'param': 'workflow_params', 'flow': 'workflow_flows',
+                       'xtrig': 'xtriggers', 'abs': 'absolute_outputs'}[k]
+                (ins if k in ('job', 'flow', 'xtrig', 'abs', 'param')
+                 else dele).setdefault(tbl, set()).add(bi)
+            elif k in ('spawn', 'remove'):
+                # INSERT (spawn) and UPDATE (remove) of task_states /
+                # task_outputs rows: merged statements run grouped by kind
+                # (deletes, inserts, updates), not in their original order
+                for t in ('task_states', 'task_outputs'):
+                    (ins if k == 'spawn' else dele).setdefault(
+                        t, set()).add(bi)
+    # a table written by more than one batch of the merged window, or written
+    # in the failed batch at all: the merged re-run executes statements
+    # grouped by kind, and a statement that then fails (e.g. an INSERT
+    # re-run against rows an earlier partial attempt left) takes the whole
+    # merged batch with it
+    for t in set(ins) | set(dele):
+        if len(ins.get(t, set()) | dele.get(t, set())) > 1 or (
+                0 in (ins.get(t, set()) | dele.get(t, set()))):
             out.add(t)
     return out
